@@ -16,6 +16,12 @@ RULE = ('fault enumeration: for each base file (spec-serialized random '
         '+-1..8 and replaced by negative / non-numeric / huge values. '
         'Non-trivial = the cut (or perturbation) lies after the first '
         'content header; distinct = (file fingerprint, cut) by construction.')
+RULE += (
+         ' Also: sections of 9 MiB and more (cuts around their boundaries), '
+         'and intact / cut files read through real files and gzip / bz2 / xz'
+         ' streams must give what the same bytes give from memory. Process '
+         'axes (DESIGN 2.8): 2 of 16 shards run under python -O, 4 of 16 '
+         'after a hostile warm-up of the library.')
 FLOOR = {'quick': 50000, 'thorough': 1000000}
 REQUIRED_REACH = ['reader.py:']
 REQUIRED_COUNTERS = ['exact_byte_count_checked', 'cut:in_header', 'cut:in_content', 'cut:at_boundary',
